@@ -29,6 +29,13 @@ echo "$pairs" | while read commit prop; do
   log="$scratch/log"
   ( NSL_REPO="$scratch/repo" VERIF_EVIDENCE_DIR="$scratch/ev" VERIF_REPLAY_DIR="$scratch/replays" ./check "$prop" quick > "$log" 2>&1 ); code=$?
   sig=$(grep -h '"signature"' "$scratch"/replays/*.json 2>/dev/null | head -1 | sed 's/.*"signature": "\(.*\)",*/\1/' | cut -c1-90)
+  if [ -n "${KEEP:-}" ] && [ "$code" = 1 ]; then   # keep the first replay as a regression case
+    mkdir -p "$KEEP"
+    for f in "$scratch"/replays/*.json; do
+      b="$(basename "$f" .json)"; cp "$f" "$KEEP/${b%-*}-fix-$commit.json"; break
+    done
+  fi
+  grep -v "^$commit	$prop	" "$out" > "$out.tmp" 2>/dev/null; mv -f "$out.tmp" "$out" 2>/dev/null
   printf "%s\t%s\t%s\t%s\n" "$commit" "$prop" "$code" "$sig" >> "$out"
   echo "$commit $prop exit=$code $sig"
   rm -rf "$scratch"
